@@ -77,6 +77,9 @@ type MTask struct {
 	Gen        int // incremented on every stage change wake-up
 	Background bool
 	tmpWorker  bool
+	// resentBeforeRetry: the task was re-sent to its first worker before it
+	// failed and was retried on the largest size class.
+	resentBeforeRetry bool
 }
 
 func (t *MTask) dedupKey() string { return t.Instance + "|" + t.Hash }
@@ -1091,6 +1094,10 @@ func (m *Model) complete(t *MTask, resp *MResp, byWorker bool) {
 
 	if t.Learner != "" {
 		m.Sit("retry:on-largest-size-class")
+		if t.RetryCount > 0 {
+			t.resentBeforeRetry = true
+			m.Sit("retry:after-task-had-been-resent")
+		}
 		if len(t.Ops) > 1 {
 			m.Sit("retry:on-largest-with-several-operations")
 		}
@@ -1655,6 +1662,12 @@ func (m *Model) getCurrentOrNextTask(sy *MSync, blocking bool) {
 		if t.RetryCount < m.Cfg.RetryCount {
 			t.RetryCount++
 			m.Sit("resend:task-sent-to-its-worker-again")
+			if t.Learner == "learner2" {
+				m.Sit("resend:during-retry-on-largest-size-class")
+				if t.resentBeforeRetry {
+					m.Sit("resend:on-both-size-classes-of-one-task")
+				}
+			}
 			m.syncReturnExecuting(sy)
 			return
 		}
